@@ -1,5 +1,7 @@
 /- C11 invariants, part 2: the transaction mutex, the join before Commit -/
 import SemaModel.C11.Lemmas
+set_option linter.unusedSimpArgs false
+set_option linter.unusedVariables false
 namespace Sema.C11
 
 def holdsTx (th : Thread) : Bool :=
